@@ -96,6 +96,27 @@ def modset(body_nodes):
     return names, containers, attrs, calls
 
 
+def _mentions_nth(t, seq, depth=0):
+    if z3.is_app(t):
+        if t.decl().kind() == z3.Z3_OP_SEQ_NTH and t.arg(0).eq(seq) and z3.is_var(t.arg(1)):
+            return True
+        return any(_mentions_nth(c, seq, depth + 1) for c in t.children())
+    return False
+
+
+def instantiate_at(ctx, seq, idx):
+    """Facts of the form  forall i. ... seq[i] ...  (preconditions, invariants) are instantiated at the element the
+    loop is about to visit, so that path pruning - which ignores quantified facts - knows the element's shape."""
+    new = []
+    for h in ctx.pc:
+        if z3.is_quantifier(h) and h.is_forall() and h.num_vars() == 1 and h.var_sort(0) == z3.IntSort():
+            body = h.body()
+            if _mentions_nth(body, seq):
+                new.append(z3.substitute_vars(body, idx))
+    for f in new:
+        ctx.assume(f)
+
+
 def cut_loop(it, node, env, spec, iterable):
     from .interp import BreakSig, ContinueSig, UNBOUND, PyRaise, ReturnSig
     ctx = it.ctx
@@ -275,6 +296,7 @@ def cut_loop(it, node, env, spec, iterable):
             if mode == 'seq':
                 i = env.lookup(iname)
                 ctx.assume(i.t < z3.Length(seq))
+                instantiate_at(ctx, seq, i.t)
                 it.assign(node.target, pv.elem_value(iterable, seq[i.t]), env)
             elif mode in ('keys', 'set'):
                 ek = ctx.fresh(z3.StringSort(), 'key')       # keys of symbolic dicts / sets are strings
